@@ -283,11 +283,39 @@ func optionForwarding(c *Ctx, r *Report, rule string, specs []fwdSpec, only ...s
 			key := r.Key(rule, fn, "forward", sp.structName+"."+ff.field)
 			ss := stores[ff.field]
 			if len(ss) == 0 {
+				// the caller's own options value is handed on as it is: every field travels with it
+				own := len(bases) > 0
+				for b := range bases {
+					if paramBehind(b) == nil {
+						own = false
+					}
+				}
+				if own {
+					r.Hold(rule, key, sinkCall.Pos(), true, sp.structName+"."+ff.field+" travels with the caller's own options value, which is handed on as it is")
+					continue
+				}
 				r.Violate(rule, key, sinkCall.Pos(), fmt.Sprintf("%s builds the %s for %s without setting %s: the next layer falls back to its default (%s)", sp.fn, sp.structName, calleeOf(sinkCall).Name(), ff.field, fwdConsequence(ff.field)))
 				continue
 			}
 			ok := true
 			for _, s := range ss {
+				// completing the caller's own options value with a default where the field is unset is not a
+				// replacement of the caller's setting
+				if _, fa := fieldOf(s.Addr); fa != nil && paramBehind(fa.X) != nil {
+					unset := false
+					for _, cnd := range controlConds(s.Block()) {
+						for x := range backSlice(cnd, nil) {
+							if u, isLoad := x.(*ssa.UnOp); isLoad && u.Op == token.MUL {
+								if f2, fa2 := fieldOf(u.X); f2 != nil && f2.Name() == ff.field && paramBehind(fa2.X) == paramBehind(fa.X) {
+									unset = true
+								}
+							}
+						}
+					}
+					if unset {
+						continue
+					}
+				}
 				switch {
 				case ff.src == "same":
 					ok = ok && sliceLoadsField(s.Val, ff.field, bases, sp.structName)
@@ -481,6 +509,17 @@ func startArgumentsReachLoaders(c *Ctx, r *Report, rule string) {
 // a default, never a value computed from that field's own previous content: the caller's struct outlives the
 // call, and the next call would wrap, add to or re-derive what the previous one left there.
 func optionsOnlyCompleted(c *Ctx, r *Report, rule string) {
+	optionsStores(c, r, rule, "self")
+}
+
+// optionsHoldNoDerivedData: nor is a field of the caller's options filled with a value computed from ANOTHER field
+// of the same struct: the caller who changes the source field for the next call and leaves the derived one alone
+// (it never set it) gets the previous call's derivation — heads of other entries.
+func optionsHoldNoDerivedData(c *Ctx, r *Report, rule string) {
+	optionsStores(c, r, rule, "sibling")
+}
+
+func optionsStores(c *Ctx, r *Report, rule string, mode string) {
 	p := c.P
 	n := 0
 	for _, fn := range p.Fns {
@@ -500,8 +539,8 @@ func optionsOnlyCompleted(c *Ctx, r *Report, rule string) {
 			if fv == nil {
 				return
 			}
-			par, ok := fa.X.(*ssa.Parameter)
-			if !ok || par.Parent() != sf {
+			par := paramBehind(fa.X)
+			if par == nil || par.Parent() != sf {
 				return
 			}
 			nt := namedOf(par.Type())
@@ -509,13 +548,38 @@ func optionsOnlyCompleted(c *Ctx, r *Report, rule string) {
 				return
 			}
 			n++
-			self := false
+			self, sibling := false, ""
 			for x := range backSlice(st.Val, nil) {
 				if u, ok := x.(*ssa.UnOp); ok && u.Op == token.MUL {
-					if f2, fa2 := fieldOf(u.X); f2 == fv && fa2.X == ssa.Value(par) {
-						self = true
+					if f2, fa2 := fieldOf(u.X); f2 != nil && paramBehind(fa2.X) == par {
+						if f2 == fv {
+							self = true
+						} else {
+							sibling = f2.Name()
+						}
 					}
 				}
+			}
+			if mode == "sibling" {
+				// re-derived on every call it does not go stale; the harm is a value filled in only while the field
+				// is unset, which the next call then takes for given
+				onlyWhenUnset := false
+				for _, cnd := range controlConds(st.Block()) {
+					for x := range backSlice(cnd, nil) {
+						if u, ok := x.(*ssa.UnOp); ok && u.Op == token.MUL {
+							if f2, fa2 := fieldOf(u.X); f2 == fv && paramBehind(fa2.X) == par {
+								onlyWhenUnset = true
+							}
+						}
+					}
+				}
+				if !onlyWhenUnset {
+					sibling = ""
+				}
+				r.Check(sibling == "", rule, r.Key(rule, fn, "option-derived", nt.Obj().Name()+"."+fv.Name()), st.Pos(),
+					"the caller's "+nt.Obj().Name()+"."+fv.Name()+" is not filled with something computed from another of its fields",
+					fmt.Sprintf("%s fills the caller's %s.%s, while it is unset, with a value computed from its %s: the struct outlives the call, and a caller who gives other %s next time (and never set %s) gets the value derived for the previous call — a log whose heads belong to other entries", fn.Name, nt.Obj().Name(), fv.Name(), sibling, sibling, fv.Name()))
+				return
 			}
 			r.Check(!self, rule, r.Key(rule, fn, "option-store", nt.Obj().Name()+"."+fv.Name()), st.Pos(),
 				"the caller's "+nt.Obj().Name()+"."+fv.Name()+" is completed with a value that does not depend on its previous content",
@@ -617,7 +681,12 @@ func loaderCodecIsLogCodec(c *Ctx, r *Report, rule string) {
 		}
 		vl := codecOf(loaderCall, sp.ifaceArg, sp.optArg, "iface", "FetchOptions")
 		vn := codecOf(newLogCall, -1, 2, "", "LogOptions")
-		if vl == nil || vn == nil {
+		// the caller's own LogOptions handed to NewLog as it is: the log's codec is that value's IO
+		var ownLog *ssa.Parameter
+		if len(newLogCall.Call.Args) > 2 {
+			ownLog = paramBehind(newLogCall.Call.Args[2])
+		}
+		if vl == nil || (vn == nil && ownLog == nil) {
 			r.Undecided(rule, key, loaderCall.Pos(), "the codec handed to the loader or to NewLog could not be located in "+sp.ctor)
 			continue
 		}
@@ -658,7 +727,13 @@ func loaderCodecIsLogCodec(c *Ctx, r *Report, rule string) {
 			}
 			return out
 		}
-		bl, bn := lift(directFieldLoadBases(vl, "IO")), lift(directFieldLoadBases(vn, "IO"))
+		bl := lift(directFieldLoadBases(vl, "IO"))
+		var bn map[ssa.Value]bool
+		if ownLog != nil {
+			bn = map[ssa.Value]bool{ssa.Value(ownLog): true}
+		} else {
+			bn = lift(directFieldLoadBases(vn, "IO"))
+		}
 		same := len(bl) > 0 && len(bl) == len(bn)
 		for b := range bl {
 			if !bn[b] {
@@ -678,4 +753,137 @@ func loaderCodecIsLogCodec(c *Ctx, r *Report, rule string) {
 			fmt.Sprintf("%s reads the stored blocks with %s.IO but gives the rebuilt log %s.IO: when the two differ (an options value reused from an earlier load keeps the codec it was completed with) the blocks are read with another codec than the log's — sealed links are not opened, the log is rebuilt without its history and reports no error", sp.ctor, name(bl), name(bn)))
 	}
 	r.Floor(rule, "constructors whose read codec and log codec were compared", n, 4)
+}
+
+// paramBehind: the parameter v denotes — itself, or through the φ of `if p == nil { p = &T{} }`.
+func paramBehind(v ssa.Value) *ssa.Parameter {
+	switch x := v.(type) {
+	case *ssa.Parameter:
+		return x
+	case *ssa.Phi:
+		for _, e := range x.Edges {
+			if p, ok := e.(*ssa.Parameter); ok {
+				return p
+			}
+		}
+	}
+	return nil
+}
+
+// noCallSpecificLeftovers: options values are reused between calls and between constructors. When one function
+// leaves data that is specific to its own call (derived from what it was asked to load, not from configuration)
+// in a field of the caller's options value, every function that hands a caller's options value of that type on
+// as it is must set that field itself first — otherwise it consumes the other call's leftovers (the heads of the
+// previously loaded log).
+func noCallSpecificLeftovers(c *Ctx, r *Report, rule string) {
+	p := c.P
+	isOptions := func(t types.Type) *types.Named {
+		pt, ok := t.Underlying().(*types.Pointer)
+		if !ok {
+			return nil
+		}
+		nt := namedOf(pt.Elem())
+		if nt == nil || !strings.HasSuffix(nt.Obj().Name(), "Options") || !p.firstParty(nt.Obj().Pkg()) {
+			return nil
+		}
+		return nt
+	}
+	type leftover struct {
+		fn    *Fn
+		field string
+		pos   token.Pos
+	}
+	left := map[*types.Named][]leftover{}                  // struct type -> call-specific stores into a caller's value
+	stored := map[*Fn]map[*ssa.Parameter]map[string]bool{} // fields a function stores into its own options parameter
+	type handOn struct {
+		fn   *Fn
+		par  *ssa.Parameter
+		call *ssa.Call
+	}
+	var hands []handOn
+	nst := 0
+	for _, fn := range p.Fns {
+		if fn.Orig != nil || fn.Body == nil || fn.Obj == nil || !p.firstParty(fn.Pkg.Types) || strings.HasSuffix(fn.Pkg.PkgPath, "/test") {
+			continue
+		}
+		sf := p.SSAFunc(fn)
+		if sf == nil {
+			continue
+		}
+		hasOpt := false
+		for _, q := range sf.Params {
+			if isOptions(q.Type()) != nil {
+				hasOpt = true
+			}
+		}
+		if !hasOpt {
+			continue
+		}
+		allInstrs(sf, false, func(ins ssa.Instruction) {
+			switch x := ins.(type) {
+			case *ssa.Store:
+				fv, fa := fieldOf(x.Addr)
+				if fv == nil {
+					return
+				}
+				par := paramBehind(fa.X)
+				if par == nil || par.Parent() != sf {
+					return
+				}
+				nt := isOptions(par.Type())
+				if nt == nil {
+					return
+				}
+				nst++
+				if stored[fn] == nil {
+					stored[fn] = map[*ssa.Parameter]map[string]bool{}
+				}
+				if stored[fn][par] == nil {
+					stored[fn][par] = map[string]bool{}
+				}
+				stored[fn][par][fv.Name()] = true
+				// call-specific: computed from a parameter that is not an options value (what to load)
+				for y := range backSlice(x.Val, nil) {
+					if q, ok := y.(*ssa.Parameter); ok && q.Parent() == sf && isOptions(q.Type()) == nil {
+						switch q.Type().Underlying().(type) {
+						case *types.Interface:
+							if isNamed(q.Type(), "context", "Context") || strings.Contains(q.Type().String(), "CoreAPI") {
+								continue
+							}
+						}
+						left[nt] = append(left[nt], leftover{fn, fv.Name(), x.Pos()})
+						break
+					}
+				}
+			case *ssa.Call:
+				cal := x.Call.StaticCallee()
+				if cal == nil || cal.Pkg == nil || !p.firstParty(cal.Pkg.Pkg) {
+					return
+				}
+				for _, a := range x.Call.Args {
+					if par := paramBehind(a); par != nil && par.Parent() == sf && isOptions(par.Type()) != nil {
+						if _, isPar := a.(*ssa.Parameter); isPar || paramBehind(a) != nil {
+							hands = append(hands, handOn{fn, par, x})
+						}
+					}
+				}
+			}
+		})
+	}
+	nh := 0
+	for _, h := range hands {
+		nt := isOptions(h.par.Type())
+		for _, lo := range left[nt] {
+			if lo.fn == h.fn {
+				continue
+			}
+			nh++
+			ok := stored[h.fn] != nil && stored[h.fn][h.par] != nil && stored[h.fn][h.par][lo.field]
+			r.Check(ok, rule, r.Key(rule, h.fn, "hands-on-leftover", nt.Obj().Name()+"."+lo.field), h.call.Pos(),
+				h.fn.Name+" sets "+nt.Obj().Name()+"."+lo.field+" itself before it hands the caller's options value on",
+				fmt.Sprintf("%s hands the caller's %s on to %s as it is, without setting %s — which %s fills (at %s) with data of its own call: a caller that uses one options value for both gets a log built with the other call's %s", h.fn.Name, nt.Obj().Name(), h.call.Call.StaticCallee().Name(), lo.field, lo.fn.Name, p.Pos(lo.pos), lo.field))
+		}
+	}
+	r.Floor(rule, "stores into options values handed in by the caller", nst, 3)
+	r.Tables["options_handed_on_as_given"] = []string{fmt.Sprintf("%d hand-on sites, %d leftover fields", len(hands), nh)}
 }
